@@ -237,3 +237,174 @@ Print Assumptions C01_sha256_len.
 Print Assumptions C01_nonvacuous_hyps.
 Print Assumptions C01_nonvacuous_spec.
 Print Assumptions C01_nonvacuous_readback.
+
+(* ====================================================================================== *)
+(* The WHOLE archive (work package "header"): header + layers + block stream as one model
+   (theories/Archive.v), and C01 end to end in ONE closed statement.
+
+   archive_write cfg cut_top cut_mid ops : ArchiveWriter::from_config (check, header to the raw
+     layer first, encryption next to raw, compression above), the calls, finalize — the block
+     stream reaches the top layer cut at cut_top, the compressed stream reaches the encryption
+     layer cut at cut_mid (ANY cuts);
+   archive_open a privs : ArchiveReader::from_config over an in-memory source (header, candidate
+     keys in order, raw / encryption / compression readers, initialize, footer, rewind).
+   For the four layer combinations (two booleans of cfg), any compressor with a left inverse, any
+   recipients, the private key s of one recipient at ANY position among the candidate keys:
+   the archive is written, opens, and the reader lists / returns / hashes exactly what was
+   given (reads_back = the conclusions of C01_list_files, C01_get_file, C01_get_hash, C01_absent,
+   with the invariant hidden) — or a wrapped key's tag verifies under a wrapping key it was not
+   made with (TagCollision: nothing is assumed about forgeries).
+   Premises: those of the component theorems (u64 / u32 / i64 ranges, 32-byte H, UTF-8 names,
+   dec (comp x) = x, Diffie-Hellman commuting on the key pairs of s and of the ephemeral scalar,
+   the AEAD inverse law and the field sizes of the key wrap, TAG-byte chunk tags). *)
+From MLA Require Import CompLayer Format Ecies EciesGcm Archive ArchiveInst ArchiveProofs ArchiveGcm.
+
+Theorem C01_archive_roundtrip :
+  forall CHUNK TAG CIPHERBUF BLOCK LIMIT FNMAX TS TC TA TE (H : bytes -> bytes) (order : footer -> footer)
+         (pubk : bytes -> bytes) (dh : bytes -> bytes -> bytes) (kdf : bytes -> bytes)
+         (wenc wdec wtag : bytes -> bytes -> bytes)
+         (ksf : bytes -> bytes -> N -> N -> N) (tagf : bytes -> bytes -> N -> bytes -> bytes) (dec : bytes -> bytes),
+  0 < CHUNK -> 0 < TAG -> 0 < CIPHERBUF -> 0 < BLOCK -> BLOCK < 2 ^ 32 ->
+  tags_distinct TS TC TA TE -> (forall x, len (H x) = 32) -> (forall f, Permutation (order f) f) ->
+  (forall k m, len m = 32 -> wdec k (wenc k m) = m) ->
+  (forall e, len (pubk e) = 32) -> (forall k m, len m = 32 -> len (wenc k m) = 32) -> (forall k c, len (wtag k c) = 16) ->
+  forall cfg cut_top cut_mid ops sf rs privs s,
+  let blocks := w_out sf in
+  let nb := nblocks BLOCK (len blocks) in
+  wrun FNMAX TS TC TA TE H order w_init (ops ++ [OFinalize]) = (sf, rs) ->
+  Forall (fun r => is_ok r = true) rs -> forallb op_utf8 ops = true ->
+  len blocks < 2 ^ 64 -> len (ser_footer_map (order (w_footer sf))) < 2 ^ 32 ->
+  (wc_compress cfg = true ->
+     (forall x, dec (wc_comp cfg x) = x) /\
+     (forall j, j < nb -> len (wc_comp cfg (block_at BLOCK blocks j)) < 2 ^ 32) /\
+     12 + 4 * nb <= LIMIT /\ 12 + 4 * nb < 2 ^ 32 /\ len blocks < 2 ^ 63) ->
+  (wc_encrypt cfg = true ->
+     len (wc_key cfg) = 32 /\ len (wc_nonce cfg) = 8 /\
+     (forall i c, len (tagf (wc_key cfg) (wc_nonce cfg) i c) = TAG) /\
+     nfull CHUNK (len (mid_of BLOCK cfg blocks)) + 2 < 2 ^ 32 /\
+     dh s (pubk (wc_eph cfg)) = dh (wc_eph cfg) (pubk s) /\
+     In (pubk s) (wc_recipients cfg) /\ In s privs) ->
+  config_size (to_persistent pubk dh kdf wenc wtag cfg) <= LIMIT ->
+  len (ser_header (to_persistent pubk dh kdf wenc wtag cfg) ++ wire_of CHUNK BLOCK ksf tagf cfg blocks) < 2 ^ 64 ->
+  exists a,
+    archive_write CHUNK CIPHERBUF BLOCK LIMIT FNMAX TS TC TA TE H order pubk dh kdf wenc wtag ksf tagf
+                  cfg cut_top cut_mid ops = Ok a /\
+    (TagCollision pubk dh kdf wenc wtag (wc_eph cfg) (wc_key cfg) (wc_recipients cfg) privs \/
+     exists p r,
+       archive_open CHUNK TAG BLOCK LIMIT dh kdf wdec wtag ksf tagf dec a privs = Ok (existT _ p r) /\
+       op_enc p = wc_encrypt cfg /\ op_comp p = wc_compress cfg /\
+       reads_back FNMAX TS TC TA TE H ops (stack_of CHUNK TAG BLOCK ksf tagf dec a p) r).
+Proof. exact archive_roundtrip. Qed.
+
+(* the same with the key wrap of the header = the model of the AES-GCM core (crypto/aesgcm.rs) over
+   any 16-byte block cipher and GF(2^128) product: inverse law and field sizes are theorems *)
+Theorem C01_archive_roundtrip_gcm :
+  forall (E : bytes -> bytes -> bytes) (gmul : N -> N -> N),
+  (forall k b, length b = 16%nat -> length (E k b) = 16%nat) ->
+  forall CHUNK TAG CIPHERBUF BLOCK LIMIT FNMAX TS TC TA TE (H : bytes -> bytes) (order : footer -> footer)
+         (pubk : bytes -> bytes) (dh : bytes -> bytes -> bytes) (kdf : bytes -> bytes)
+         (ksf : bytes -> bytes -> N -> N -> N) (tagf : bytes -> bytes -> N -> bytes -> bytes) (dec : bytes -> bytes),
+  0 < CHUNK -> 0 < TAG -> 0 < CIPHERBUF -> 0 < BLOCK -> BLOCK < 2 ^ 32 ->
+  tags_distinct TS TC TA TE -> (forall x, len (H x) = 32) -> (forall f, Permutation (order f) f) ->
+  (forall e, len (pubk e) = 32) ->
+  forall cfg cut_top cut_mid ops sf rs privs s,
+  let blocks := w_out sf in
+  let nb := nblocks BLOCK (len blocks) in
+  wrun FNMAX TS TC TA TE H order w_init (ops ++ [OFinalize]) = (sf, rs) ->
+  Forall (fun r => is_ok r = true) rs -> forallb op_utf8 ops = true ->
+  len blocks < 2 ^ 64 -> len (ser_footer_map (order (w_footer sf))) < 2 ^ 32 ->
+  (wc_compress cfg = true ->
+     (forall x, dec (wc_comp cfg x) = x) /\
+     (forall j, j < nb -> len (wc_comp cfg (block_at BLOCK blocks j)) < 2 ^ 32) /\
+     12 + 4 * nb <= LIMIT /\ 12 + 4 * nb < 2 ^ 32 /\ len blocks < 2 ^ 63) ->
+  (wc_encrypt cfg = true ->
+     len (wc_key cfg) = 32 /\ len (wc_nonce cfg) = 8 /\
+     (forall i c, len (tagf (wc_key cfg) (wc_nonce cfg) i c) = TAG) /\
+     nfull CHUNK (len (mid_of BLOCK cfg blocks)) + 2 < 2 ^ 32 /\
+     dh s (pubk (wc_eph cfg)) = dh (wc_eph cfg) (pubk s) /\
+     In (pubk s) (wc_recipients cfg) /\ In s privs) ->
+  config_size (to_persistent pubk dh kdf (gwenc E gmul) (gwtag E gmul) cfg) <= LIMIT ->
+  len (ser_header (to_persistent pubk dh kdf (gwenc E gmul) (gwtag E gmul) cfg) ++ wire_of CHUNK BLOCK ksf tagf cfg blocks) < 2 ^ 64 ->
+  exists a,
+    archive_write CHUNK CIPHERBUF BLOCK LIMIT FNMAX TS TC TA TE H order pubk dh kdf (gwenc E gmul) (gwtag E gmul) ksf tagf
+                  cfg cut_top cut_mid ops = Ok a /\
+    (TagCollision pubk dh kdf (gwenc E gmul) (gwtag E gmul) (wc_eph cfg) (wc_key cfg) (wc_recipients cfg) privs \/
+     exists p r,
+       archive_open CHUNK TAG BLOCK LIMIT dh kdf (gwdec E gmul) (gwtag E gmul) ksf tagf dec a privs = Ok (existT _ p r) /\
+       op_enc p = wc_encrypt cfg /\ op_comp p = wc_compress cfg /\
+       reads_back FNMAX TS TC TA TE H ops (stack_of CHUNK TAG BLOCK ksf tagf dec a p) r).
+Proof. exact archive_roundtrip_gcm. Qed.
+
+(* every way of cutting a stream into at least one piece is a cut of the model *)
+Theorem C01_cut_pieces_any :
+  forall ps b, ps <> [] -> concat ps = b -> exists sizes, cut_pieces sizes b = ps.
+Proof. exact cut_pieces_any. Qed.
+
+Print Assumptions C01_archive_roundtrip.
+Print Assumptions C01_archive_roundtrip_gcm.
+Print Assumptions C01_cut_pieces_any.
+
+(* non-vacuity: scaled constants (CHUNK 64, CIPHERBUF 24, BLOCK 256, FILENAME_MAX 48), BOTH layers, the
+   3-file interleaved call list of C06 (two files open at once, add_file in between, footer in reverse
+   order), toy_comp, AES-256-GCM for the data chunks (InstGcm tables) and for the key wrap (E_aes256,
+   gf_mul), HKDF-SHA256, X25519 with the RFC 7748 6.1 key pairs: ephemeral = Alice, recipients = [Alice;
+   Bob]; the reader holds [a decoy; Bob's private key]; block stream cut at 100/0/37, compressed stream
+   at 70/1/0/200.  Every premise of C01_archive_roundtrip_gcm holds for it ... *)
+From MLA Require Import CompLayerProofs FormatBridge FormatV1.
+From MLA.Concrete Require X25519 Ghash.
+From Coq Require Import ZifyBool ZifyNat ZifyN.
+Example C01_archive_roundtrip_nonvacuous :
+  exists a, ex3_write = Ok a /\
+    (TagCollision X25519.x25519_base X25519.x25519 hkdf_info (gwenc E_aes256 Ghash.gf_mul) (gwtag E_aes256 Ghash.gf_mul)
+                  (wc_eph ex3_cfg) (wc_key ex3_cfg) (wc_recipients ex3_cfg) ex3_privs \/
+     exists p r, ex3_open a = Ok (existT _ p r) /\ op_enc p = true /\ op_comp p = true /\
+       reads_back 48 Src.BT_FileStart Src.BT_FileContent Src.BT_EndOfArchiveData Src.BT_EndOfFile sha256 ex2_ops
+                  (stack_of 64 16 256 (ksf_gcm 64 16) tagf_gcm toy_dec a p) r).
+Proof.
+  unfold ex3_write, ex3_open.
+  apply (C01_archive_roundtrip_gcm E_aes256 Ghash.gf_mul E_aes256_len 64 16 24 256 ex3_LIMIT 48
+           Src.BT_FileStart Src.BT_FileContent Src.BT_EndOfArchiveData Src.BT_EndOfFile sha256 ex2_order
+           X25519.x25519_base X25519.x25519 hkdf_info (ksf_gcm 64 16) tagf_gcm toy_dec)
+    with (sf := ex2_sf) (rs := ex2_rs) (s := X25519.bob_sk).
+  - reflexivity.
+  - reflexivity.
+  - reflexivity.
+  - reflexivity.
+  - reflexivity.
+  - exact src_tags_distinct.
+  - exact len_sha256.
+  - exact ex2_order_perm.
+  - intros e. apply (GcmProofs.len_length _ 32%nat). apply X25519.length_x25519.
+  - apply surjective_pairing.
+  - vm_compute. repeat constructor.
+  - vm_compute. reflexivity.
+  - vm_compute. reflexivity.
+  - vm_compute. reflexivity.
+  - intros _. split; [exact toy_dec_comp|]. split.
+    + intros j _. change (wc_comp ex3_cfg) with toy_comp. rewrite ArchiveGcm.len_toy_comp.
+      unfold block_at. rewrite len_sliceN. lia.
+    + split; [vm_compute; discriminate|]. split; vm_compute; reflexivity.
+  - intros _. split; [vm_compute; reflexivity|]. split; [vm_compute; reflexivity|]. split.
+    + apply tagf_gcm_len; vm_compute; reflexivity.
+    + split; [vm_compute; reflexivity|]. split.
+      * change (wc_eph ex3_cfg) with X25519.alice_sk.
+        rewrite X25519.x25519_kat_rfc7748_6_1_alice, X25519.x25519_kat_rfc7748_6_1_bob,
+          X25519.x25519_kat_rfc7748_6_1_shared_a. exact X25519.x25519_kat_rfc7748_6_1_shared_b.
+      * split; [right; left; reflexivity | right; left; reflexivity].
+  - rewrite config_size_persistent. vm_compute. discriminate.
+  - vm_compute. reflexivity.
+Qed.
+
+(* ... and evaluated: encryption and compression found in the header, header of 153 bytes (2 wrapped
+   keys), the three names, and per name the size, the bytes read with buffers of 7, 8, 9, ... bytes,
+   the stored hash — all equal to what the specification says of the calls *)
+Example C01_archive_roundtrip_readback :
+  ex3_summary = Some (true, true, 153, [ex_c; ex_b; ex_a],
+    map (fun id => (len (pieces 0 id ex2_ops), Ok (pieces 0 id ex2_ops), Ok (Some (sha256 (pieces 0 id ex2_ops)))))
+        [0; 1; 2])
+  /\ started 0 ex2_ops = [(ex_a, 0); (ex_b, 1); (ex_c, 2)]
+  /\ map (fun id => len (pieces 0 id ex2_ops)) [0; 1; 2] = [100; 35; 70].
+Proof. vm_compute. repeat split; reflexivity. Qed.
+
+Print Assumptions C01_archive_roundtrip_nonvacuous.
+Print Assumptions C01_archive_roundtrip_readback.
